@@ -1568,7 +1568,9 @@ struct Spec {
 }
 
 fn line_of(s: &Spec) -> String {
-    let enc = lib_encode(s.f, s.o, &s.img).unwrap_or_default();
+    // the generator runs the encoder; an encoder that panics here must not take the whole check down: the case is
+    // emitted without blocks and `run` (under catch_unwind) reports the panic as a result of that very case
+    let enc = std::panic::catch_unwind(|| lib_encode(s.f, s.o, &s.img).unwrap_or_default()).unwrap_or_default();
     let ok3 = if s.f == F::Bc1 {
         let mut v = vec![];
         for b in 0..s.img.blocks_w() * s.img.blocks_h() {
@@ -2159,6 +2161,68 @@ pub fn gen(seed: u64, thorough: bool) -> Vec<String> {
                     });
                     specs.push(Spec { class: "smooth", f, o, img, wit: None });
                 }
+            }
+        }
+        // M. one EXACTLY representable 5:6:5 colour (any of the 65 536, expanded to 8 bit as the decoders do) on the
+        // opaque pixels and an alpha pattern that makes some pixels transparent: the single-colour shortcuts of
+        // the encoders must still honour the alpha threshold and the index-3 rule (seed C13h). All qualities.
+        if f.has_565() {
+            for &q in &['F', 'N', 'H', 'U'] {
+                for &m in &mets {
+                    if q == 'U' && m == 'P' {
+                        continue;
+                    }
+                    let o = Opts { q, m, d: 'N' };
+                    for _ in 0..(2 * scale).min(20) {
+                        let mut r2 = Rng::new(rng.next());
+                        let cols: Vec<[u8; 3]> = (0..4)
+                            .map(|i| {
+                                let (r5, g6, b5) = if i == 0 { (31, 63, 31) } else { (r2.below(32), r2.below(64), r2.below(32)) };
+                                [((r5 * 527 + 23) >> 6) as u8, ((g6 * 259 + 33) >> 6) as u8, ((b5 * 527 + 23) >> 6) as u8]
+                            })
+                            .collect();
+                        let pat = r2.below(6);
+                        let img = block_row(4, |b, p| {
+                            let a = match (pat + b as u64) % 6 {
+                                0 => if p == 5 { 0 } else { 255 },
+                                1 => if p == 10 { 255 } else { 0 },
+                                2 => [0u8, 255][(p + p / 4) % 2],
+                                3 => [127u8, 128][(p / 4) % 2],
+                                4 => *r2.pick(&[0u8, 64, 127, 128, 200, 255]),
+                                _ => if p < 8 { 255 } else { 100 },
+                            };
+                            [cols[b][0], cols[b][1], cols[b][2], a]
+                        });
+                        specs.push(Spec { class: "reptr", f, o, img, wit: None });
+                    }
+                }
+            }
+        }
+        // N. fully opaque blocks that contain pure black pixels next to other colours (the "implicit black" trick of
+        // other BC1 encoders would make them transparent): opacity + index-3 clauses at every quality (seed C13i)
+        for &q in &['F', 'N', 'H', 'U'] {
+            if q == 'U' && !(f.has_565() || f == F::Bc7) {
+                continue;
+            }
+            let o = Opts { q, m: 'U', d: 'N' };
+            for _ in 0..(2 * scale).min(20) {
+                let mut r2 = Rng::new(rng.next());
+                let base = [r2.below(256) as u8, r2.below(256) as u8, r2.below(256) as u8];
+                let img = block_row(4, |b, p| {
+                    let black = match b {
+                        0 => p == 7,
+                        1 => p % 5 == 0,
+                        2 => p < 6,
+                        _ => r2.chance(1, 3),
+                    };
+                    if black {
+                        [0, 0, 0, 255]
+                    } else {
+                        let j = |c: u8, r: &mut Rng| (c as i64 + r.below(41) as i64 - 20).clamp(0, 255) as u8;
+                        if b % 2 == 0 { [base[0], base[1], base[2], 255] } else { [j(base[0], &mut r2), j(base[1], &mut r2), j(base[2], &mut r2), 255] }
+                    }
+                });
+                specs.push(Spec { class: "black", f, o, img, wit: None });
             }
         }
         // I. other input precisions (same content as rgba8 would give)
